@@ -14,6 +14,7 @@ STUB_SOURCES = {
     "xdsl.dialects.llvm": "xdsl_dialects_llvm.py",
     "xdsl.dialects.scf": "xdsl_dialects_scf.py",
     "xdsl.traits": "xdsl_traits.py",
+    "xdsl.dialects.utils": "xdsl_dialects_utils.py",
     "xdsl.utils.hints": "xdsl_utils_hints.py",
     "xdsl.pattern_rewriter": "xdsl_pattern_rewriter.py",
     "xdsl.rewriter": "xdsl_pattern_rewriter.py",
